@@ -76,6 +76,7 @@ fn dispatch(cmd: &str, rest: &[String]) -> i32 {
         "vm-run-replay" => vm::run_replay(rest),
         "vm-trace" => vm::trace(rest),
         "vm-long" => vm::long_runs(rest),
+        "vm-counted" => vm::counted_runs(rest),
         "num-opens" => vm::num_opens_table(rest),
         other => {
             eprintln!("unknown subcommand {other}");
